@@ -133,7 +133,7 @@ theorem inv_defrag (c : Cache) (h : Inv c) : Inv (defrag c) :=
 theorem finishForward_covers (c : Cache) (loc : Nat) (b : List Tok) (h : Inv c)
     (hfit : loc + b.length ≤ c.cells.length) (hpos : 0 < c.cells.length) :
     Inv (finishForward c loc b) ∧ ∀ t ∈ b, Covers (finishForward c loc b) t := by
-  have h0 : Inv { c with curLoc := loc, curRange := Range.new } := ⟨h.len, h.cover, h.rmax, h.pad⟩
+  have h0 : Inv { c with curLoc := loc, curRange := Range.new } := ⟨h.len, h.cover, h.rmax, h.pad, h.size⟩
   have hc0 : CurOK { c with curLoc := loc, curRange := Range.new } [] :=
     ⟨by intro t ht; simp at ht, Or.inr rfl⟩
   obtain ⟨hi, hsub⟩ := place_inv _ loc b [] h0 hc0 hfit
@@ -143,7 +143,7 @@ theorem finishForward_covers (c : Cache) (loc : Nat) (b : List Tok) (h : Inv c)
   simp only at hl hp hcm
   unfold finishForward
   simp only
-  refine ⟨⟨hi.len, hi.cover, hi.rmax, hi.pad⟩, ?_⟩
+  refine ⟨⟨hi.len, hi.cover, hi.rmax, hi.pad, hi.size⟩, ?_⟩
   intro t ht
   have hpad := hi.pad
   rw [hl, hp] at hpad
@@ -175,7 +175,7 @@ theorem findStart_fits (cells : List Cell) (k s : Nat) (h : findStart cells k = 
     token's sequence lies inside the range covered by the mask and the K/V views. -/
 theorem startForward_covers (c : Cache) (b : List Tok) (h : Inv c) (hok : (startForward c b).2 = .ok) :
     Inv (startForward c b).1 ∧ ∀ t ∈ b, Covers (startForward c b).1 t := by
-  have h1 : Inv (slide { c with curBatch := b } b) := slide_inv _ b ⟨h.len, h.cover, h.rmax, h.pad⟩
+  have h1 : Inv (slide { c with curBatch := b } b) := slide_inv _ b ⟨h.len, h.cover, h.rmax, h.pad, h.size⟩
   unfold startForward at hok ⊢
   simp only at hok ⊢
   cases hf : findStart (slide { c with curBatch := b } b).cells b.length with
@@ -219,20 +219,282 @@ theorem mask_exact (c : Cache) (b : List Tok) (ids : List Nat) (h : Inv c)
     rw [putRows_length]; exact hi.len
   · exact hcov t ht
 
-/-- the initial cache satisfies the invariant -/
-theorem inv_init (v : Variant) (w : Option Int) (maxSeq capacity maxBatch cachePad batchPad : Nat) (hs : Bool) :
+/-- the initial cache satisfies the invariant (any configuration whose size is below `math.MaxInt`) -/
+theorem inv_init (v : Variant) (w : Option Int) (maxSeq capacity maxBatch cachePad batchPad : Nat) (hs : Bool)
+    (hsz : (Causal.init v w maxSeq capacity maxBatch cachePad batchPad hs).cells.length ≤ maxInt) :
     Inv (Causal.init v w maxSeq capacity maxBatch cachePad batchPad hs) := by
-  unfold Causal.init
-  simp only
-  refine ⟨by simp, ?_, by intro s r hr; simp at hr, ?_⟩
+  refine ⟨?_, ?_, ?_, ?_, hsz⟩
+  · simp [Causal.init]
   · intro j hj s hs
-    simp only [List.getElem_replicate, Cell.empty] at hs
+    simp only [Causal.init, List.getElem_replicate, Cell.empty] at hs
     simp at hs
-  · constructor
+  · intro s r hr; simp [Causal.init] at hr
+  · unfold Causal.init
+    simp only
+    constructor
     · show 0 < (if cachePad = 0 then 1 else cachePad)
       split <;> omega
     · simp only [List.length_replicate, roundUp]
       exact Nat.mul_mod_left _ _
+
+/-- `StartForward` keeps the invariant whatever its outcome (success, full, or the F23 panic state) -/
+theorem startForward_inv (c : Cache) (b : List Tok) (h : Inv c) : Inv (startForward c b).1 := by
+  cases hr : (startForward c b).2 with
+  | ok => exact (startForward_covers c b h hr).1
+  | full | panic =>
+    have h1 : Inv (slide { c with curBatch := b } b) := slide_inv _ b ⟨h.len, h.cover, h.rmax, h.pad, h.size⟩
+    unfold startForward at hr ⊢
+    simp only at hr ⊢
+    cases hf : findStart (slide { c with curBatch := b } b).cells b.length with
+    | some loc => simp [hf] at hr
+    | none =>
+      simp only [hf] at hr ⊢
+      split
+      · exact h1
+      · rename_i hne
+        simp only [hne, Bool.false_eq_true, if_false] at hr
+        cases hf2 : findStart (defrag (slide { c with curBatch := b } b)).cells b.length with
+        | some loc => simp [hf2] at hr
+        | none => simpa using inv_defrag _ h1
+
+/-- one operation of a cache history -/
+inductive HOp where
+  | fwd (b : List Tok) (ids : List Nat)
+  | cp (src dst : Nat) (len : Int)
+  | rm (seq : Nat) (b e : Int)
+
+def stepH (c : Cache) : HOp → Cache
+  | .fwd b ids => if (startForward c b).2 = .ok then put (startForward c b).1 ids else (startForward c b).1
+  | .cp src dst len => Causal.copyPrefix c src dst len
+  | .rm seq b e => (Causal.remove c seq b e).1
+
+/-- **The invariant holds along every history**: any interleaving of forward passes (accepted or
+    rejected), prefix copies and removals (accepted, refused half-way, or unsupported). -/
+theorem inv_run (c : Cache) (ops : List HOp) (h : Inv c) : Inv (ops.foldl stepH c) := by
+  induction ops generalizing c with
+  | nil => exact h
+  | cons op rest ih =>
+    apply ih
+    cases op with
+    | fwd b ids =>
+      simp only [stepH]
+      split
+      · exact put_inv _ _ (startForward_inv c b h)
+      · exact startForward_inv c b h
+    | cp src dst len => exact copyPrefix_inv c src dst len h
+    | rm seq b e => exact remove_inv c seq b e h
+
+/-- **mask_exact after every history**: start from any initial configuration, run any history, then
+    any batch that `StartForward` accepts is exposed exactly its visible history. -/
+theorem mask_exact_all_histories (v : Variant) (w : Option Int) (maxSeq capacity maxBatch cachePad batchPad : Nat)
+    (hs : Bool) (ops : List HOp) (b : List Tok) (ids : List Nat)
+    (hsz : (Causal.init v w maxSeq capacity maxBatch cachePad batchPad hs).cells.length ≤ maxInt) :
+    let c := ops.foldl stepH (Causal.init v w maxSeq capacity maxBatch cachePad batchPad hs)
+    (startForward c b).2 = .ok →
+    ∀ t ∈ b, exposedEntries (put (startForward c b).1 ids) t
+      = visible (put (startForward c b).1 ids).window (abs (put (startForward c b).1 ids)) t.seq t.pos := by
+  intro c hok
+  exact mask_exact c b ids (inv_run _ ops (inv_init v w maxSeq capacity maxBatch cachePad batchPad hs hsz)) hok
+
+/-! ### WrapperCache: a rejected batch is unwound -/
+
+/-- the state placement starts from: after window eviction, and after defrag if that was needed -/
+def placeBase (c : Cache) (b : List Tok) : Cache :=
+  match findStart (slide { c with curBatch := b } b).cells b.length with
+  | some _ => slide { c with curBatch := b } b
+  | none => defrag (slide { c with curBatch := b } b)
+
+/-- the batch continues its sequences: no owned cell of a batch token's sequence at or after it -/
+def NoLater (cells : List Cell) (b : List Tok) : Prop :=
+  ∀ x ∈ cells, ∀ t ∈ b, t.seq ∈ x.seqs → x.pos < t.pos
+
+/-- **Unwinding an accepted batch restores the abstract state**: placing a batch into a free block
+    and then running the wrapper's unwind (`Remove(seq_k, pos_k, MaxInt32)` for every token, with no
+    `Put` in between) gives back exactly the abstraction the placement started from. -/
+theorem unwind_finishForward_abs (c2 : Cache) (loc : Nat) (b : List Tok)
+    (hlen : c2.cells.length = c2.rows.length) (hfit : loc + b.length ≤ c2.cells.length)
+    (hholes : ∀ j, loc ≤ j → j < loc + b.length → (c2.cells.getD j Cell.empty).seqs = [])
+    (hpb : PosBound c2.cells) (hbp : ∀ t ∈ b, t.pos < maxInt32) (hnl : NoLater c2.cells b) :
+    abs (unwind (finishForward c2 loc b) b) = abs c2 := by
+  have hp := place_cells { c2 with curLoc := loc, curRange := Range.new } loc b
+  have hcF : (finishForward c2 loc b).cells = placeCells c2.cells loc b := by
+    simp [finishForward, hp.1]
+  have hrF : (finishForward c2 loc b).rows = c2.rows := by
+    simp [finishForward, hp.2.1]
+  have hpbF : PosBound (finishForward c2 loc b).cells := by
+    rw [hcF]
+    intro x hx s hs
+    rcases mem_placeCells _ _ _ _ hx with h1 | ⟨t, ht, rfl⟩
+    · exact hpb x h1 s hs
+    · exact hbp t ht
+  obtain ⟨hc, hr⟩ := unwind_cells (finishForward c2 loc b) b hpbF
+  have hlen' : (unwind (finishForward c2 loc b) b).cells.length = (unwind (finishForward c2 loc b) b).rows.length := by
+    rw [hc, hr, hrF, List.length_map, hcF, length_placeCells]; exact hlen
+  rw [abs_eq_range _ hlen', abs_eq_range _ hlen]
+  have hn : (unwind (finishForward c2 loc b) b).cells.length = c2.cells.length := by
+    rw [hc, List.length_map, hcF, length_placeCells]
+  rw [hn]
+  apply filterMap_congr'
+  intro j hj
+  simp only [List.mem_range] at hj
+  unfold entryAt
+  rw [hc, hr, hrF, hcF]
+  have hjl : j < (placeCells c2.cells loc b).length := by rw [length_placeCells]; exact hj
+  rw [getD_map_lt (unwCell b) _ j hjl Cell.empty Cell.empty]
+  obtain ⟨hout, hin⟩ := getD_placeCells c2.cells loc b j hfit
+  by_cases hblock : loc ≤ j ∧ j < loc + b.length
+  · obtain ⟨t, ht, he⟩ := hin hblock.1 hblock.2
+    rw [he]
+    have hempty : (unwCell b ⟨t.pos, [t.seq]⟩).seqs = [] := by
+      have hsub := unwCell_sub b ⟨t.pos, [t.seq]⟩
+      have hdrop := unwCell_drops b ⟨t.pos, [t.seq]⟩ t ht (by simp)
+      cases hseqs : (unwCell b ⟨t.pos, [t.seq]⟩).seqs with
+      | nil => rfl
+      | cons a as =>
+        have ha := hsub a (by rw [hseqs]; simp)
+        simp only [List.mem_singleton] at ha
+        subst ha
+        exact absurd (by rw [hseqs]; simp) hdrop
+    have hh := hholes j hblock.1 hblock.2
+    simp only [entryOf, hempty, hh, if_true]
+  · rw [hout (by omega)]
+    rw [unwCell_id b _ (fun t ht hs => hnl _ (getD_mem _ j hj _) t ht hs)]
+
+/-- a successful `StartForward` followed by the wrapper's unwind leaves the abstraction of the state
+    placement started from (pre-batch state after window eviction / defrag) -/
+theorem startForward_unwind_abs (c : Cache) (b : List Tok) (h : Inv c)
+    (hok : (startForward c b).2 = .ok)
+    (hpb : PosBound (placeBase c b).cells) (hbp : ∀ t ∈ b, t.pos < maxInt32)
+    (hnl : NoLater (placeBase c b).cells b) :
+    abs (unwind (startForward c b).1 b) = abs (placeBase c b) := by
+  have h1 : Inv (slide { c with curBatch := b } b) := slide_inv _ b ⟨h.len, h.cover, h.rmax, h.pad, h.size⟩
+  unfold startForward at hok ⊢
+  unfold placeBase at hpb hnl ⊢
+  simp only at hok ⊢
+  cases hf : findStart (slide { c with curBatch := b } b).cells b.length with
+  | some loc =>
+    simp only [hf] at hpb hnl ⊢
+    exact unwind_finishForward_abs _ loc b h1.len (findStart_fits _ _ _ hf).1 (findStart_holes _ _ _ hf) hpb hbp hnl
+  | none =>
+    simp only [hf] at hok hpb hnl ⊢
+    split at hok
+    · cases hok
+    · rename_i hne
+      simp only [hne, Bool.false_eq_true, if_false]
+      cases hf2 : findStart (defrag (slide { c with curBatch := b } b)).cells b.length with
+      | none => simp [hf2] at hok
+      | some loc =>
+        simp only [hf2]
+        exact unwind_finishForward_abs _ loc b (inv_defrag _ h1).len (findStart_fits _ _ _ hf2).1
+          (findStart_holes _ _ _ hf2) hpb hbp hnl
+
+/-- shape of a successful `WrapperCache.StartForward`: every wrapped cache ran its own, successfully -/
+theorem wStart_ok (cs : List Cache) (b : List Tok) (cs' : List Cache) (h : wStart cs b = (cs', .ok)) :
+    cs' = cs.map (fun c => (startForward c b).1) ∧ ∀ c ∈ cs, (startForward c b).2 = .ok := by
+  induction cs generalizing cs' with
+  | nil => simp [wStart] at h; simp [h]
+  | cons c rest ih =>
+    unfold wStart at h
+    cases hs : startForward c b with
+    | mk c1 r =>
+      cases r with
+      | ok =>
+        simp only [hs] at h
+        cases hw : wStart rest b with
+        | mk rs' r2 =>
+          cases r2 with
+          | ok =>
+            simp only [hw, Prod.mk.injEq, and_true] at h
+            obtain ⟨e1, e2⟩ := ih rs' hw
+            subst h
+            simp [hs, e1]
+            exact e2
+          | full => simp [hw] at h
+          | panic => simp [hw] at h
+      | full => simp [hs] at h
+      | panic => simp [hs] at h
+
+/-- shape of a rejected `WrapperCache.StartForward`: the caches before the rejecting one accepted and
+    were unwound, the rejecting one keeps its own failed state, the later ones are untouched -/
+theorem wStart_full (cs : List Cache) (b : List Tok) (cs' : List Cache) (h : wStart cs b = (cs', .full)) :
+    ∃ pre c post, cs = pre ++ c :: post ∧ (∀ x ∈ pre, (startForward x b).2 = .ok) ∧
+      (startForward c b).2 = .full ∧
+      cs' = pre.map (fun x => unwind (startForward x b).1 b) ++ (startForward c b).1 :: post := by
+  induction cs generalizing cs' with
+  | nil => simp [wStart] at h
+  | cons c rest ih =>
+    unfold wStart at h
+    cases hs : startForward c b with
+    | mk c1 r =>
+      cases r with
+      | ok =>
+        simp only [hs] at h
+        cases hw : wStart rest b with
+        | mk rs' r2 =>
+          cases r2 with
+          | ok => simp [hw] at h
+          | panic => simp [hw] at h
+          | full =>
+            simp only [hw, Prod.mk.injEq, and_true] at h
+            obtain ⟨pre, c0, post, e1, e2, e3, e4⟩ := ih rs' hw
+            refine ⟨c :: pre, c0, post, by simp [e1], ?_, e3, ?_⟩
+            · intro x hx
+              rcases List.mem_cons.mp hx with rfl | hx'
+              · simp [hs]
+              · exact e2 x hx'
+            · subst h; simp [hs, e4]
+      | full =>
+        simp only [hs, Prod.mk.injEq, and_true] at h
+        exact ⟨[], c, rest, by simp, by simp, by simp [hs], by simp [hs, h]⟩
+      | panic => simp [hs] at h
+
+/-- **A rejected wrapped batch leaves every cache at its pre-batch history.**  If
+    `WrapperCache.StartForward` reports a full cache, then (for batches that continue their sequences,
+    positions below `MaxInt32`) every wrapped cache that had accepted the batch has, after the
+    unwind, exactly the abstraction of the state its placement started from; the rejecting cache is in
+    that state itself and the later caches are untouched.  Nothing of the rejected batch survives. -/
+theorem wrapper_rejected_batch_leaves_history (cs : List Cache) (b : List Tok) (cs' : List Cache)
+    (hinv : ∀ c ∈ cs, Inv c) (hbp : ∀ t ∈ b, t.pos < maxInt32)
+    (hgood : ∀ c ∈ cs, PosBound (placeBase c b).cells ∧ NoLater (placeBase c b).cells b)
+    (h : wStart cs b = (cs', .full)) :
+    ∃ pre c post, cs = pre ++ c :: post ∧
+      cs'.map abs = pre.map (fun x => abs (placeBase x b)) ++ abs (placeBase c b) :: post.map abs := by
+  obtain ⟨pre, c, post, e1, e2, e3, e4⟩ := wStart_full cs b cs' h
+  refine ⟨pre, c, post, e1, ?_⟩
+  subst e4
+  simp only [List.map_append, List.map_map, List.map_cons]
+  congr 1
+  · apply List.map_congr_left
+    intro x hx
+    have hx' : x ∈ cs := by rw [e1]; simp [hx]
+    exact startForward_unwind_abs x b (hinv x hx') (e2 x hx) (hgood x hx').1 hbp (hgood x hx').2
+  · congr 1
+    -- the rejecting cache: its failed StartForward leaves exactly `placeBase`
+    unfold startForward at e3 ⊢
+    unfold placeBase
+    simp only at e3 ⊢
+    cases hf : findStart (slide { c with curBatch := b } b).cells b.length with
+    | some loc => simp [hf] at e3
+    | none =>
+      simp only [hf] at e3 ⊢
+      split at e3
+      · cases e3
+      · rename_i hne
+        simp only [hne, Bool.false_eq_true, if_false]
+        cases hf2 : findStart (defrag (slide { c with curBatch := b } b)).cells b.length with
+        | some loc => simp [hf2] at e3
+        | none => rfl
+
+/-- **mask_exact for every wrapped cache** after a successful `WrapperCache.StartForward` + `Put` -/
+theorem wrapper_mask_exact (cs : List Cache) (b : List Tok) (ids : List Nat) (cs' : List Cache)
+    (hinv : ∀ c ∈ cs, Inv c) (h : wStart cs b = (cs', .ok)) :
+    ∀ c' ∈ wPut cs' ids, ∀ t ∈ b, exposedEntries c' t = visible c'.window (abs c') t.seq t.pos := by
+  obtain ⟨e1, e2⟩ := wStart_ok cs b cs' h
+  intro c' hc' t ht
+  subst e1
+  simp only [wPut, List.map_map, List.mem_map, Function.comp] at hc'
+  obtain ⟨c, hc, rfl⟩ := hc'
+  exact mask_exact c b ids (hinv c hc) (e2 c hc) t ht
 
 /-! ### Witnesses of the defects the model shares with the code -/
 
@@ -293,6 +555,17 @@ def f15b (v : Variant) : Cache :=
 theorem F15b_canResume_unsound :
     canResume (f15b {}) 1 8 = true ∧ (abs (f15b {})).map (fun e => (e.pos, e.seqs)) = [(9, [0]), (7, [0, 1]), (8, [0])] ∧
     canResume (f15b { fixResume := true }) 1 8 = false := by
+  decide
+
+/-- non-vacuity of the wrapper theorems: the gemma-style pair (window 4 + full), 2 sequences × context 5,
+    two 4-token prompts, then a 3-token batch the sliding-window cache accepts and the causal cache rejects -/
+example :
+    let mk := fun (w : Option Int) =>
+      fwd (fwd (Causal.init { fixDefrag := true, fixResume := true } w 2 5 4 1 1 true)
+        [(⟨0, 0⟩, 1), (⟨0, 1⟩, 2), (⟨0, 2⟩, 3), (⟨0, 3⟩, 4)]) [(⟨1, 0⟩, 5), (⟨1, 1⟩, 6), (⟨1, 2⟩, 7), (⟨1, 3⟩, 8)]
+    (wStart [mk (some 4), mk none] [⟨0, 4⟩, ⟨0, 5⟩, ⟨0, 6⟩]).2 = .full ∧
+    (startForward (mk (some 4)) [⟨0, 4⟩, ⟨0, 5⟩, ⟨0, 6⟩]).2 = .ok ∧
+    ((wStart [mk (some 4), mk none] [⟨0, 4⟩, ⟨0, 5⟩, ⟨0, 6⟩]).1.map abs) = [abs (mk (some 4)), abs (mk none)] := by
   decide
 
 /-- non-vacuity of `mask_exact`: a concrete non-trivial state satisfies its hypotheses -/
